@@ -24,7 +24,8 @@ def gen_wave_case(rng, **kw):
     k = Case()
     k.c, k.a = cg.gen_circuit(rng, **{x: kw[x] for x in ('n_gates', 'seq', 'allow_unconnected', 'allow_dangling', 'fork_style', 'branchforks', 'kinds', 'n_pi', 'distinct_ins', 'p_nodata') if x in kw})
     k.reuse = kw.get('reuse', rng.random() < 0.5)
-    k.strip = kw.get('strip', False)
+    # fork stripping only where asked for (strip_prob); the simulators accept every circuit with it since fix 9137925
+    k.strip = kw.get('strip', rng.random() < kw['strip_prob'] if 'strip_prob' in kw else False)
     k.sims = kw.get('sims', rng.choice([1, 2, 3, 5]))
     k.delays, k.style = wc.gen_delays(rng, len(k.c.lines), kw.get('style'))
     capmode = kw.get('capmode', rng.choice(['4', '8', '16', 'vec', 'vec']))
